@@ -421,7 +421,9 @@ def main():
                     dyadic_sys.append((st, w, u0))
             else:
                 to_judge.append((case, info))
-            if len(ck.samples) < 2 and any(ai == 0 for ai in a) and k == 0 and n >= 2:
+            if len(ck.samples) < 3 and n >= 2 and len(a) >= 3 and (
+                    (a[0] == 0 and k == 0) or (st["fam"] == "tol" and sum(a) < Q and k == 2 * Q - 2 and len(ck.samples) == 1)
+                    or (a[-1] == 0 and k % 2 == 1 and len(ck.samples) == 2)):
                 ck.sample({"family": st["fam"], "n": n, "weights": w, "u0": u0, "spec_idx0": [i - 1 for i in want_out],
                            "code": out if err else [i - 1 for i in out]})
         if replayed and script_unused == replayed:
@@ -622,7 +624,7 @@ def main():
         elif info["fam"] == "tol":
             where = "tol-sum-below-one" if sum(info["a"]) < info["Q"] else "tol-sum-above-one"
         else:
-            where = "exact-breakpoint" if info["k"] % 2 == 0 else "exact-interior"
+            where = "exact-lattice-offset" if info["k"] % 2 == 0 else "exact-cell-midpoint"
         key = f"syst:{where}:" + "+".join(sorted(fails))
         what = (f"systematic_resample(n={info['n']}, w={info['w']}, u0={info['u0']!r}) -> "
                 f"{info['got'] if case['err'] else [i - 1 for i in case['out']]}; specification: "
